@@ -338,14 +338,17 @@ impl<'a> LoweringManager<'a> {
         } else {
           // Vec.pop / Vec.get return (ref eq) at WAT level. Unwrap based on the source-level
           // element type the LIR call expects: i32 element → __$unwrapI31, struct ref → ref.cast.
+          // Elements erased to AnyPointer (enums with i31 variants) are already (ref eq).
           let call = if vec_returns_element {
             if return_type.is_int32() {
               wasm::InlineInstruction::DirectCall(mir::FunctionName::UNWRAP_I31, vec![call])
-            } else {
+            } else if return_type.is_id() {
               wasm::InlineInstruction::Cast {
                 pointer_type: return_type.clone(),
                 value: Box::new(call),
               }
+            } else {
+              call
             }
           } else {
             call
